@@ -76,7 +76,8 @@ class ParserState(Generic[StateT]):
             try:
                 action, arg = states[state][token.type]
             except KeyError:
-                expected = {s for s in states[state].keys() if s.isupper()}
+                is_terminal = self.parse_conf.parse_table.is_terminal
+                expected = {s for s in states[state].keys() if is_terminal(s)}
                 raise UnexpectedToken(token, expected, state=self, interactive_parser=None)
 
             assert arg != end_state
